@@ -157,7 +157,8 @@ func (r *mapReadBucketCloser) Get(ctx context.Context, path string) (ReadObjectC
 	if err != nil {
 		return nil, err
 	}
-	return replaceReadObjectCloserPath(readObjectCloser, path), nil
+	// The path of the returned object is always normalized, whatever the spelling given.
+	return replaceReadObjectCloserPath(readObjectCloser, normalpath.Normalize(path)), nil
 }
 
 func (r *mapReadBucketCloser) Stat(ctx context.Context, path string) (ObjectInfo, error) {
@@ -170,7 +171,8 @@ func (r *mapReadBucketCloser) Stat(ctx context.Context, path string) (ObjectInfo
 	if err != nil {
 		return nil, err
 	}
-	return replaceObjectInfoPath(objectInfo, path), nil
+	// The path of the returned object is always normalized, whatever the spelling given.
+	return replaceObjectInfoPath(objectInfo, normalpath.Normalize(path)), nil
 }
 
 func (r *mapReadBucketCloser) Walk(ctx context.Context, prefix string, f func(ObjectInfo) error) error {
